@@ -169,37 +169,38 @@ func init() {
 		}
 		return "dep/" + d.Amount.String() + "/" + hx([]byte(d.Data)) + extra
 	}
-	// convrange <start> <count> <mode>  =>  0 | <mismatches>:<first d>:<credited>
-	// every d in [start, start+count): one Taproot output of d satoshi to the bridge address (value = ParseFloat of the
-	// 8-decimal spelling, which is what encoding/json does), through the real DecodeDepositEvent; mode f = the same value also
-	// pays the fee address with threshold d (must be recognised).
+	// convrange <start> <count> <mode>  =>  the credited amounts for d = start … start+count-1, run-length encoded
+	// every d in that range: one Taproot output of d satoshi to the bridge address (value = ParseFloat of the 8-decimal
+	// spelling, which is what encoding/json does), through the real DecodeDepositEvent; mode f = the same value also pays
+	// the fee address with threshold d (must be recognised).  Output: maximal runs `a+n` (credited a, a+1, …, a+n-1 for n
+	// consecutive d), `none*n` / `err*n` for n consecutive refusals — a lossless encoding of what the code returned; the
+	// comparison with d is done by the Lean driver.
 	ops["C15.convrange"] = func(a []string) string {
 		start, cnt := u64(a[0]), u64(a[1])
 		const W = 4
-		type part struct {
-			bad   int
-			first uint64
-			got   string
-		}
-		parts := make([]part, W)
+		res := make([]int64, cnt) // credited amount, -1 not a deposit, -2 error, -3 panic
 		var wg sync.WaitGroup
 		for w := 0; w < W; w++ {
-			lo, hi := start+cnt*uint64(w)/W, start+cnt*uint64(w+1)/W
+			lo, hi := cnt*uint64(w)/W, cnt*uint64(w+1)/W
 			wg.Add(1)
-			go func(w int, lo, hi uint64) {
+			go func(lo, hi uint64) {
 				defer wg.Done()
+				cur := lo
 				defer func() {
 					if r := recover(); r != nil {
-						parts[w] = part{1, lo, "panic"}
+						for k := cur; k < hi; k++ {
+							res[k] = -3
+						}
 					}
 				}()
-				res := config.Resource{Address: c15Addr(0), FeeAmount: big.NewInt(0), ResourceID: [32]byte{7}}
+				rsrc := config.Resource{Address: c15Addr(0), FeeAmount: big.NewInt(0), ResourceID: [32]byte{7}}
 				feeAddr := c15Addr(1)
 				tx := btcjson.TxRawResult{Vout: []btcjson.Vout{
 					{ScriptPubKey: btcjson.ScriptPubKeyResult{Type: "witness_v1_taproot", Address: c15AddrStr[0]}},
 					{ScriptPubKey: btcjson.ScriptPubKeyResult{Type: "witness_v1_taproot", Address: c15AddrStr[1]}},
 				}}
-				for d := lo; d < hi; d++ {
+				for ; cur < hi; cur++ {
+					d := start + cur
 					v, err := strconv.ParseFloat(c15Dec(d, ""), 64)
 					if err != nil {
 						panic(err)
@@ -208,36 +209,40 @@ func init() {
 					tx.Vout[1].Value = 0
 					if a[2] == "f" {
 						tx.Vout[1].Value = v
-						res.FeeAmount = new(big.Int).SetUint64(d)
+						rsrc.FeeAmount = new(big.Int).SetUint64(d)
 					}
-					dep, is, err := listener.DecodeDepositEvent(tx, res, feeAddr)
-					g := "none"
-					if err != nil {
-						g = "err"
-					} else if is {
-						g = dep.Amount.String()
-					}
-					if g != utoa(d) {
-						if parts[w].bad == 0 {
-							parts[w].first, parts[w].got = d, g
-						}
-						parts[w].bad++
+					dep, is, err := listener.DecodeDepositEvent(tx, rsrc, feeAddr)
+					switch {
+					case err != nil:
+						res[cur] = -2
+					case !is:
+						res[cur] = -1
+					case !dep.Amount.IsInt64() || dep.Amount.Sign() < 0:
+						res[cur] = -2
+					default:
+						res[cur] = dep.Amount.Int64()
 					}
 				}
-			}(w, lo, hi)
+			}(lo, hi)
 		}
 		wg.Wait()
-		bad, first, got := 0, uint64(0), ""
-		for _, p := range parts {
-			if p.bad > 0 && bad == 0 {
-				first, got = p.first, p.got
+		runs := []string{}
+		for i := 0; i < len(res); {
+			j := i + 1
+			if res[i] >= 0 {
+				for j < len(res) && res[j] == res[j-1]+1 {
+					j++
+				}
+				runs = append(runs, fmt.Sprintf("%d+%d", res[i], j-i))
+			} else {
+				for j < len(res) && res[j] == res[i] {
+					j++
+				}
+				runs = append(runs, fmt.Sprintf("%s*%d", map[int64]string{-1: "none", -2: "err", -3: "panic"}[res[i]], j-i))
 			}
-			bad += p.bad
+			i = j
 		}
-		if bad == 0 {
-			return "0"
-		}
-		return fmt.Sprintf("%d:%d:%s", bad, first, got)
+		return joinOr(runs, ",")
 	}
 	// handle <src> <nonce> <block> <amount> <datahex>  =>  err | msg/<dest>/<nonce>/<amounthex>/<recipienthex>/<msgid>/<src>/<rid>
 	ops["C15.handle"] = func(a []string) string {
